@@ -122,6 +122,8 @@ def run_workflow(ctx, case, via, index):
         if via == 'subprocess':
             env = dict(os.environ)
             env['PYTHONPATH'] = core.REPO
+            if os.environ.get('SPOWTD_VERIF_OPTIMIZE') == '1':
+                env['PYTHONOPTIMIZE'] = '1'
             p = subprocess.run([sys.executable, '-B', os.path.join(core.REPO, 'bin', 'spowtd')] + argv,
                                env=env, capture_output=True, text=True, timeout=600)
             last = p.stderr.strip().splitlines()[-1] if p.stderr.strip() else ''
